@@ -23,6 +23,7 @@ SEMANTIC = [
     ("precondition not satisfied", "pre"),
     ("invariant not satisfied", "inv"),
     ("assertion failed", "assert"),
+    ("requires not satisfied", "assert"),
     ("possible arithmetic underflow/overflow", "overflow"),
     ("possible division by zero", "divzero"),
     ("decreases not satisfied", "decreases"),
@@ -30,6 +31,7 @@ SEMANTIC = [
     ("must have a decreases clause", "nodecreases"),
     ("recursive function must have a decreases", "nodecreases"),
     ("possible out of bounds", "bounds"),
+    ("index in bounds", "bounds"),
     ("index out of bounds", "bounds"),
     ("unreachable", "unreachable"),
     ("possible bit shift", "overflow"),
